@@ -778,3 +778,11 @@ def fx_rawwords(fx):
     c = _ctx()
     n = shrink.raw_words_masked(c, fx, ["src/lib.rs"], only=lambda fid: "rawfx::" in fid)
     return n == 3 and _fires(c, "rawfx::bad_from_words") and not _fires(c, "rawfx::ok_from_words") and not _fires(c, "rawfx::ok_bitwise")
+
+
+def fx_clearcursors(fx):
+    from rules import wrap
+    c = _ctx()
+    nb = wrap.clear_resets_both_cursors(c, fx, "src/lib.rs", "curfx::BadRing")
+    no = wrap.clear_resets_both_cursors(c, fx, "src/lib.rs", "curfx::OkRing")
+    return nb == 1 and no == 1 and _fires(c, "curfx::BadRing::clear") and not _fires(c, "curfx::OkRing")
